@@ -7,6 +7,7 @@ import (
 	"os"
 	"path/filepath"
 	"strings"
+	"time"
 	"unicode/utf8"
 
 	"github.com/edutko/decipher/internal/file"
@@ -24,6 +25,10 @@ func main() {
 	recursive := flag.Bool("r", false, "recursive")
 	version := flag.Bool("version", false, "print version")
 	flag.Parse()
+
+	// every date is reported in UTC: the zone of the process must not influence how a library interprets a time either
+	// (encoding/asn1 adopts the local zone for a time whose numeric offset happens to match it)
+	time.Local = time.UTC
 
 	if *version {
 		fmt.Printf("%s %s\n", os.Args[0], Version)
